@@ -307,3 +307,21 @@ func NestedArity(r *rand.Rand, in []byte) ([]byte, string) {
 		return setCount(b, h.Count+2), "nested-arity+2elem"
 	}
 }
+
+// EntryExtra appends one element to the LAST two-element array at nesting depth 2 of a well-formed value
+// (the last entry of a Forward message's entry list) and raises its count to 3; ok=false when there is none.
+func EntryExtra(in []byte, extra []byte) (out []byte, ok bool) {
+	var last *ArrHdr
+	hs := Arrays(in)
+	for i := range hs {
+		if hs[i].Depth == 2 && hs[i].Count == 2 && hs[i].HdrLen == 1 && (last == nil || hs[i].Pos > last.Pos) {
+			last = &hs[i]
+		}
+	}
+	if last == nil {
+		return nil, false
+	}
+	out = append(append(append([]byte{}, in[:last.End]...), extra...), in[last.End:]...)
+	out[last.Pos] = 0x93
+	return out, true
+}
